@@ -51,9 +51,9 @@ func solverArgv(kind string) []string {
 	case "z3old":
 		return []string{"z3", "-in"}
 	case "cvc5":
-		return []string{"cvc5", "--incremental", "--produce-models", fmt.Sprintf("--tlimit-per=%d", solverTimeoutMs), "--lang=smt2"}
+		return []string{"cvc5", "--incremental", "--produce-models", fmt.Sprintf("--tlimit-per=%d", longTimeoutMs), "--lang=smt2"}
 	case "cvc5int":
-		return []string{"cvc5", "--incremental", "--produce-models", "--solve-bv-as-int=sum", fmt.Sprintf("--tlimit-per=%d", solverTimeoutMs), "--lang=smt2"}
+		return []string{"cvc5", "--incremental", "--produce-models", "--solve-bv-as-int=sum", fmt.Sprintf("--tlimit-per=%d", longTimeoutMs), "--lang=smt2"}
 	}
 	panic("solver kind " + kind)
 }
